@@ -81,6 +81,11 @@ pub fn gen_scenario(r: &mut Rng, big: bool) -> Scenario {
             args.push("-E".into());
             args.push(Rng::new(r.0 ^ 0xa54f_f53b).range(1, nd - 1).to_string());
         }
+        // a loaded object (not the first) whose name pointer is NULL, after objects with names
+        if nd >= 3 && Rng::new(r.0 ^ 0x510e_527f).chance(1, 3) {
+            args.push("-N".into());
+            args.push(Rng::new(r.0 ^ 0x510e_5280).range(2, nd - 1).to_string());
+        }
     }
     // a module with the linker's reserved gap inside it (r-x page, PROT_NONE page, rw- page of the same file):
     // an instruction pointer near the gap makes the 256-byte window run into unreadable memory
@@ -167,7 +172,7 @@ pub fn gen_cfg(r: &mut Rng, t: &Target) -> DumpCfg {
     let bt = *r.pick(&blocked);
     cfg.blamed = bt.tid;
     if r.chance(1, 2) {
-        let mut c = CrashSpec { tid: bt.tid, signo: *r.pick(&[11u32, 6, 7, 4]), code: *Rng::new(r.0 ^ 0x5be0_cd19_137e_2179).pick(&[0i32, 1, 2, 3, 4, 0x80, -6, -6, -1, -2, -60, i32::MIN, i32::MAX]), addr: { let _ = r.below(5); r.next() }, fp_seed: r.next(), ..Default::default() };
+        let mut c = CrashSpec { tid: bt.tid, signo: { let base = *r.pick(&[11u32, 6, 7, 4]); let mut q = Rng::new(r.0 ^ 0x1f83_d9ab_fb41_bd6b); if q.chance(1, 3) { *q.pick(&[0u32, 1, 5, 8, 31, 32, 34, 37, 63, 64, 65, 255, 0x8000_0000, u32::MAX - 1, u32::MAX]) } else { base } }, code: *Rng::new(r.0 ^ 0x5be0_cd19_137e_2179).pick(&[0i32, 1, 2, 3, 4, 0x80, -6, -6, -1, -2, -60, i32::MIN, i32::MAX]), addr: { let _ = r.below(5); r.next() }, fp_seed: r.next(), ..Default::default() };
         for i in 0..23 {
             c.gregs[i] = r.next() as i64;
         }
